@@ -103,7 +103,7 @@ theorem sinv_step {m : Mode} {tr : List Event} {s s' : State} {e : Event}
     simp only [step] at hs
     (repeat' split at hs) <;> (try (cases hs; done)) <;>
       (cases hs
-       constructor <;> (try intro x) <;> (try simp [Phase.listenerClosed]) <;>
+       constructor <;> (try intro x) <;> (try simp) <;>
          grind [Phase.listenerClosed])
 
 theorem sinv_run {m : Mode} {tr0 tr : List Event} {s0 s : State}
@@ -144,11 +144,11 @@ theorem joined_absorbing {m : Mode} {tr : List Event} {s s' : State} {res : Bool
         · split at h1
           · cases h1
           · cases h1
-            cases e <;> simp_all [startBlocked, Phase.isJoined, Phase.listenerClosed]
+            cases e <;> simp_all [startBlocked]
       | _ =>
         simp only [step] at h1
         (repeat' split at h1) <;> (try (cases h1; done)) <;>
-          (cases h1; simp_all [Phase.isJoined, Phase.listenerClosed])
+          (cases h1; simp_all [Phase.listenerClosed])
     have := ih key.1 h2
     simp only [List.mem_cons, not_or]
     grind
